@@ -52,6 +52,16 @@ func (fr *frame) evalCall(st *State, call *ast.CallExpr) []*Value {
 			case types.MethodVal:
 				fn = sel.Obj().(*types.Func)
 				recv = fr.methodRecv(st, f, sel)
+				// contract keyed by the static (named interface) receiver type takes precedence
+				if n, ok := sel.Recv().(*types.Named); ok {
+					if _, isIface := n.Underlying().(*types.Interface); isIface && n.Obj().Pkg() != nil {
+						if c := fr.fc.reg.contracts[n.Obj().Pkg().Path()+"."+n.Obj().Name()+"."+fn.Name()]; c != nil {
+							sig := fn.Type().(*types.Signature)
+							args := fr.evalArgs(st, call, sig)
+							return fr.applyContractSig(st, call, n.Obj().Name()+"."+fn.Name(), sig, fr.fc.reg.pkgs[n.Obj().Pkg().Path()], c, recv, args)
+						}
+					}
+				}
 			case types.FieldVal:
 				// call of a function-typed field
 				fv := fr.eval(st, f)
@@ -473,6 +483,25 @@ func (fr *frame) syntacticModel(st *State, call *ast.CallExpr, sel *ast.Selector
 		case "(*sync.Mutex).Unlock", "(*sync.RWMutex).Unlock", "(*sync.RWMutex).RUnlock":
 			fr.lockOp(st, sel.X, false, full == "(*sync.RWMutex).RUnlock")
 			return nil, true
+		case "(*sync/atomic.Value).Store", "(*sync/atomic.Value).Load":
+			// atomic.Value is a one-field box {v any}; Store/Load are linearizable accesses to it
+			lv := fr.lvalueOf(st, sel.X)
+			if lv == nil {
+				panic(unsupported("atomic.Value that is not addressable"))
+			}
+			if _, isPtr := lv.T.Underlying().(*types.Pointer); isPtr {
+				lv = fr.derefLV(st, st.load(lv), lv.T, "safe.nil", fr.ords[sel])
+			}
+			stt := lv.T.Underlying().(*types.Struct)
+			flv := lv.field(stt, 0)
+			fr.fc.reg.trustedUsed["sync/atomic.Value Store/Load are linearizable accesses to a single cell"] = true
+			if fn.Name() == "Store" {
+				v := fr.coerce(st, fr.eval(st, call.Args[0]), flv.T)
+				fr.fc.oblige(st, fr, "safe", fmt.Sprintf("safe.atomicstore#%d", fr.callOrd[call]), Neq(v.Typ, mkInt(0)))
+				st.store(flv, v)
+				return nil, true
+			}
+			return []*Value{st.load(flv)}, true
 		}
 		return nil, false
 	}
